@@ -506,24 +506,25 @@ static void sweep(int codec, void *obj, const rnode *root, const vbuf *enc, cons
 					break;   /* the same call on an exactly sized heap block would abort under ASan */
 				}
 				if (res == KSI_OK) {
-					if (!avail) {
-						OC(OC_SER_OVERSIZE_OK);
-						snprintf(sig, sizeof sig, "%s-oversize-written", CN[codec]);
-						fail1(sig, "tree %s: content of %zu bytes exceeds the 16-bit length field, but %s(opt=%d, size=%zu) returned OK, len=%zu, output starts %s", desc, root->content, fn, opt, size, len,
-						      size >= 4 ? hx(buf + (no_move && len <= size ? size - len : 0), 4) : "-");
-					} else if (size < need) {
-						snprintf(sig, sizeof sig, "%s-short-buffer-accepted", CN[codec]);
-						fail1(sig, "tree %s: %s(opt=%d) returned OK (len=%zu) for a buffer of %zu bytes although %zu are needed", desc, fn, opt, len, size, need);
-					} else if (len != need) {
-						snprintf(sig, sizeof sig, "%s-serialize-length", CN[codec]);
-						fail1(sig, "tree %s: %s(opt=%d, size=%zu) reported %zu bytes, expected %zu", desc, fn, opt, size, len, need);
-					} else if (need && memcmp(buf + (no_move ? size - need : 0), exp, need) != 0) {
-						const unsigned char *g = buf + (no_move ? size - need : 0);
-						size_t d = 0;
-						while (d < need && g[d] == exp[d]) d++;
-						snprintf(sig, sizeof sig, "%s-serialize-bytes", CN[codec]);
-						fail1(sig, "tree %s: %s(opt=%d, size=%zu): output differs from the reference encoding at offset %zu: expected %s.. got %s..", desc, fn, opt, size, d, hx(exp + d, need - d), hx(g + d, need - d));
-					} else OC(lenient ? OC_SER_LENIENT_OK : OC_SER_OK);
+					const unsigned char *g = buf + (no_move && need <= size ? size - need : 0);
+					const char *wrong = NULL;
+					size_t d = 0;
+					if (!avail) wrong = "oversize-written";
+					else if (size < need) wrong = "short-buffer-accepted";
+					else if (len != need) wrong = "serialize-length";
+					else if (need && memcmp(g, exp, need) != 0) { wrong = "serialize-bytes"; while (d < need && g[d] == exp[d]) d++; }
+					if (wrong && !fits) wrong = "oversize-written";   /* whatever went wrong, the tree should have been refused */
+					if (!wrong) OC(lenient ? OC_SER_LENIENT_OK : OC_SER_OK);
+					else {
+						snprintf(sig, sizeof sig, "%s-%s", CN[codec], wrong);
+						if (!fits) {
+							OC(OC_SER_OVERSIZE_OK);
+							fail1(sig, "tree %s: content of %zu bytes exceeds the 16-bit length field, but %s(opt=%d, size=%zu) returned OK, len=%zu (true size %zu), output starts %s", desc, root->content, fn, opt, size, len, need,
+							      hx(buf, size < 4 ? size : 4));
+						} else if (size < need) fail1(sig, "tree %s: %s(opt=%d) returned OK (len=%zu) for a buffer of %zu bytes although %zu are needed", desc, fn, opt, len, size, need);
+						else if (len != need) fail1(sig, "tree %s: %s(opt=%d, size=%zu) reported %zu bytes, expected %zu", desc, fn, opt, size, len, need);
+						else fail1(sig, "tree %s: %s(opt=%d, size=%zu): output differs from the reference encoding at offset %zu: expected %s.. got %s..", desc, fn, opt, size, d, hx(exp + d, need - d), hx(g + d, need - d));
+					}
 				} else {
 					if (!avail) OC(OC_SER_REFUSED_OVERSIZE);
 					else if (lenient) OC(OC_SER_LENIENT_ERR);
